@@ -699,7 +699,9 @@ def rule_tscope(chk, w2):
                 if o.kind != "const":
                     continue
                 ty = o.info.get("ty") or ""
-                if ty.endswith("TransparentKeyScope") and isinstance(o.info.get("v"), int):
+                dfn = o.info.get("def") or ""
+                if (ty.endswith("TransparentKeyScope") or re.search(r"TransparentKeyScope::(EXTERNAL|INTERNAL|EPHEMERAL)$", dfn)) \
+                        and isinstance(o.info.get("v"), int):
                     seen.append(("TransparentKeyScope(%d)" % o.info["v"], o.info["v"]))
                 fnp = o.info.get("p") or ""
                 mm = re.search(r"keys::(External|Internal|Ephemeral)Ivk$", fnp) if "fn" in o.info else None
